@@ -307,6 +307,19 @@ func (g *coreGen) containerStmt(d int) Node {
 				}
 				body["b"] = append(body["b"].([]any), map[string]any(extra))
 			}
+		case 2, 3:
+			// the body changes an element / member that is visited later: each pass reads its element when it starts
+			var w Node
+			switch it {
+			case "r0", "r1":
+				w = cn("asgidx", "n", it, "key", map[string]any(g.num(-1)), "op", g.pick("=", "+="), "e", map[string]any(g.num(10+g.r.Intn(80))))
+			case "o0":
+				w = cn("asgidx", "n", it, "key", map[string]any(cn("str", "v", g.pick("b", "k", "bc"))), "op", "=", "e", map[string]any(g.num(10+g.r.Intn(80))))
+			}
+			if w != nil {
+				b := body["b"].([]any)
+				body["b"] = append([]any{b[0], map[string]any(cn("expr", "e", map[string]any(w)))}, b[1:]...)
+			}
 		}
 		return cn("forin", "v1", v1, "v2", v2, "n", it, "b", map[string]any(body))
 	case 10:
